@@ -172,6 +172,13 @@ func init() {
 				e.typeOfArg = map[*ssa.Call]Term{}
 			}
 			e.typeOfArg[x] = a[0]
+			// a Go value boxed at the call (reflect.TypeOf(s) with s a string): its dynamic type is its static type
+			if mi, ok := x.Call.Args[0].(*ssa.MakeInterface); ok && !isNodeType(mi.X.Type()) && !isIface(mi.X.Type()) {
+				if e.typeOfStatic == nil {
+					e.typeOfStatic = map[*ssa.Call]string{}
+				}
+				e.typeOfStatic[x] = mi.X.Type().String()
+			}
 			e.fr.val[x] = r
 			return true
 		},
